@@ -100,13 +100,16 @@ def sobGrad (sigDep bkgDep : Bool) (s b ds db : F) : F :=
 def dot (xs ys : List F) : F := sumF (List.zipWith (· * ·) xs ys)
 
 /-- `SourceWeightedPDFRatio.get_ratio` for one event: `Rk` the ratios of the `K` sources for this event
-(`0` for a source whose (source, event) pair was not selected), `ak = a_jk[dataset_idx]` -/
-def wRatio (ak Rk : List F) : F := dot Rk ak / sumF ak
+(`0` for a source whose (source, event) pair was not selected), `ak = a_jk[dataset_idx]`.
+`if A > 0: R_i /= A` — a dataset in which no source has any signal yield keeps the (zero) numerator. -/
+def wRatio (ak Rk : List F) : F :=
+  if 0 < sumF ak then dot Rk ak / sumF ak else dot Rk ak
 
 /-- `SourceWeightedPDFRatio.get_gradient` for one event:
-`(-R_i*dAdp + Σ_k (a_k_grad[k]*R_ik + a_k[k]*R_ik_grad)) / A` -/
+`(-R_i*dAdp + Σ_k (a_k_grad[k]*R_ik + a_k[k]*R_ik_grad))`, divided by `A` only `if A > 0` -/
 def wRatioGrad (ak dak Rk dRk : List F) : F :=
-  (-(wRatio ak Rk) * sumF dak + (dot dak Rk + dot ak dRk)) / sumF ak
+  if 0 < sumF ak then (-(wRatio ak Rk) * sumF dak + (dot dak Rk + dot ak dRk)) / sumF ak
+  else -(wRatio ak Rk) * sumF dak + (dot dak Rk + dot ak dRk)
 
 /-! ### weights -/
 
@@ -210,31 +213,43 @@ structure Result (F : Type) where
   grads : List F
   nsGrad2 : F
 
+/-- `a_jk` : one row per dataset -/
+def stA (W : List F) (ds : List (DSIn F)) : List (List F) := ds.map (fun d => aRow W d.Y)
+
+/-- `a_jk_grads[p]`: the yield derivative w.r.t. fit parameter `p` collected with the consumers' rule -/
+def stDaRow (gp : List (List Int)) (W : List F) (d : DSIn F) (p : Nat) : List F :=
+  aRow W (List.zipWith (fun g dy => locToFit g dy p) gp d.dY)
+
+def stDa (gp : List (List Int)) (W : List F) (ds : List (DSIn F)) (p : Nat) : List (List F) :=
+  ds.map (fun d => stDaRow gp W d p)
+
+/-- what `ZeroSigH0SingleDatasetTCLLHRatio.evaluate` derives for one dataset from the source-weighted ratio:
+`X_i` and, for every non-ns fit parameter of `ps` (in that order), `dX_i/dp` -/
+def stDS (ps : List Nat) (gp : List (List Int)) (W : List F) (d : DSIn F) : DS F :=
+  let ak := aRow W d.Y
+  { N := d.N
+    Xs := d.ev.map (fun row => xOfRatio d.N (wRatio ak (row.map leafRatio)))
+    dXs := ps.map (fun p =>
+      d.ev.map (fun row =>
+        dxOfDRatio d.N (wRatioGrad ak (stDaRow gp W d p) (row.map leafRatio)
+          (List.zipWith (fun g l => leafGrad gp g p l) gp row)))) }
+
+def stDss (nFit nsIdx : Nat) (gp : List (List Int)) (W : List F) (ds : List (DSIn F)) : List (DS F) :=
+  ds.map (stDS (otherIds nFit nsIdx) gp W)
+
+/-- the entries of the non-ns fit parameters, in the order of `fitparam_ids[p_mask]` -/
+def stGradPs (opa ns : F) (nFit nsIdx : Nat) (gp : List (List Int)) (W : List F) (ds : List (DSIn F)) :
+    List F :=
+  (otherIds nFit nsIdx).zipIdx.map (fun pq =>
+    multiGradP opa ns (fj (stA W ds)) (fjGrad (stA W ds) (stDa gp W ds pq.1)) (stDss nFit nsIdx gp W ds) pq.2)
+
 /-- whole pipeline: `MultiDatasetTCLLHRatio.evaluate` + `calculate_ns_grad2` -/
 def stacked (opa ns : F) (nFit nsIdx : Nat) (gp : List (List Int)) (W : List F)
     (ds : List (DSIn F)) : Result F :=
-  let ps := otherIds nFit nsIdx
-  let a := ds.map (fun d => aRow W d.Y)
-  -- a_jk_grads[p]
-  let da (p : Nat) : List (List F) :=
-    ds.map (fun d => aRow W (List.zipWith (fun g dy => locToFit g dy p) gp d.dY))
-  let f := fj a
-  let dss : List (DS F) := (List.zip ds (List.range ds.length)).map (fun dj =>
-    let d := dj.1
-    let ak := a.getD dj.2 []
-    let Rs := d.ev.map (fun row => wRatio ak (row.map leafRatio))
-    { N := d.N
-      Xs := Rs.map (xOfRatio d.N)
-      dXs := ps.map (fun p =>
-        let dak := (da p).getD dj.2 []
-        d.ev.map (fun row =>
-          dxOfDRatio d.N (wRatioGrad ak dak (row.map leafRatio)
-            (List.zipWith (fun g l => leafGrad gp g p l) gp row)))) })
-  let gNs := multiGradNs opa ns f dss
-  let gPs := (List.zip ps (List.range ps.length)).map (fun pq =>
-    multiGradP opa ns f (fjGrad a (da pq.1)) dss pq.2)
+  let f := fj (stA W ds)
+  let dss := stDss nFit nsIdx gp W ds
   { value := multiValue opa ns f dss
-    grads := assemble nsIdx gNs gPs
+    grads := assemble nsIdx (multiGradNs opa ns f dss) (stGradPs opa ns nFit nsIdx gp W ds)
     nsGrad2 := multiNsGrad2 opa ns f dss }
 
 end
